@@ -43,6 +43,16 @@ def protocol_models(ck):
     if res.error or res.violated != "CounterEqualsCalls":
         raise FrameworkError("vacuity gate: the two-step counter model does not lose an update")
     ck.set("plain_counter_model_loses_update", True)
+    # the console (logging while handlers and the level are switched): lock-then-read must hold, read-then-lock must fail
+    res = run_tlc("conc/ConsoleLog", cfg="ConsoleLog.cfg", workers=min(8, vlib.NCPU), timeout=900)
+    ck.tlc(res, "console-protocol")
+    if res.violated:
+        ck.violation("model:console:" + res.violated, "console protocol (as transcribed) violates %s" % res.violated,
+                     ck.replay_file("console-model.txt", res.out[-3000:]))
+    res = run_tlc("conc/ConsoleLog", cfg="ConsoleLog_snapshot.cfg", workers=2, timeout=600)
+    if res.error or res.violated != "DeliveredToInstalled":
+        raise FrameworkError("vacuity gate: the console model that decides before it owns the lock is not refuted")
+    ck.set("console_snapshot_variant_rejected_by", res.violated)
     # pRRT worker protocol at the code's atomicity (unlocked reads included): safety + termination
     res = run_tlc("conc/PRRT", cfg="PRRT.cfg", workers=min(4, vlib.NCPU), timeout=1800)
     ck.tlc(res, "prrt-protocol")
@@ -54,10 +64,11 @@ def protocol_models(ck):
 def scenarios(tier):
     if tier == "quick":
         return [("counters", 8, 150000), ("counters", 2, 300000), ("terminate", 3, 0), ("terminate", 6, 0), ("periodic", 3, 0), ("periodic-terminate", 6, 0),
-                ("gnat", 4, 400), ("solutions", 4, 200), ("rng", 6, 60), ("spaces", 6, 60)]
+                ("gnat", 4, 400), ("solutions", 4, 200), ("rng", 6, 60), ("spaces", 6, 60), ("console", 6, 400), ("console", 4, 400)]
     out = []
     for t in (2, 4, 8, 16):
-        out += [("counters", t, 400000), ("terminate", t, 0), ("gnat", t, 1500), ("solutions", t, 600), ("rng", t, 200), ("spaces", t, 200)]
+        out += [("counters", t, 400000), ("terminate", t, 0), ("gnat", t, 1500), ("solutions", t, 600), ("rng", t, 200), ("spaces", t, 200),
+                ("console", max(t, 3), 1000)]
     out += [("periodic", 3, 0), ("periodic", 8, 0), ("periodic-terminate", 20, 0)] * 3
     return out * 2
 
@@ -102,7 +113,7 @@ def surface(ck, tier, binary):
         raise FrameworkError("vacuity gate: hooked resources never observed (hooks missing or not built in?): %s" % sorted(missing))
     ck.set("access_events_per_resource", acc_by_res)
     ck.set("hook_events", sum(1 for r in rows if r["e"] in ("Access", "Fork", "Begin", "End", "Join")))
-    contract = [r for r in rows if r["e"] in ("CountersFinal", "TerminateSeen", "NNQueries", "SolutionsFinal", "SeedsConcurrent", "SpaceNames")]
+    contract = [r for r in rows if r["e"] in ("CountersFinal", "TerminateSeen", "NNQueries", "SolutionsFinal", "SeedsConcurrent", "SpaceNames", "ConsoleLog")]
     ck.set("contract_events", len(contract))
     ck.add("traces_validated_against_impl", sum(1 for r in rows if r["e"] == "Scenario"))
     ck.sample({"kind": "hook events", "events": [r for r in rows if r["e"] == "Access"][:3]})
